@@ -1788,7 +1788,9 @@ def create_pressure_controls(net, from_junctions, to_junctions, controlled_junct
                "type": type}
     _set_multiple_entries(net, "press_control", index, **entries, **kwargs)
 
-    controlled_elsewhere = (controlled_junctions != from_junctions) & (controlled_junctions != to_junctions)
+    # compared by position, whatever container (list, array, Series with any labels) the junctions came in
+    controlled_elsewhere = (np.asarray(controlled_junctions) != np.asarray(from_junctions)) \
+        & (np.asarray(controlled_junctions) != np.asarray(to_junctions))
     if np.any(controlled_elsewhere):
         controllers_warn = index[controlled_elsewhere]
         logger.warning("The pressure controllers %s control the pressure at junctions that they are"
@@ -2130,6 +2132,8 @@ def _auto_ext_grid_types(p_bar, t_k, typ, comp):
     :return: adapted_types
     :rtype: iterable(str)
     """
+    # values are taken by position (as for all other bulk arguments), labels of a Series do not count
+    p_bar, t_k, typ = [x.values if isinstance(x, pd.Series) else x for x in (p_bar, t_k, typ)]
     p_arr = hasattr(p_bar, "__iter__")
     t_arr = hasattr(t_k, "__iter__")
     typ_arr = hasattr(typ, "__iter__") and not isinstance(typ, str)
